@@ -23,6 +23,8 @@ use vfam::{
     roweval::{self, Class},
 };
 
+mod edge;
+
 type Pl = SimpleFloorPlanner;
 
 #[derive(Clone, Debug)]
@@ -325,6 +327,48 @@ fn main() {
         out.sample = Some(json!({"verifier": v, "mock": m, "reference_violated": cls}));
         out
     });
+
+    // ---- a constraint that lands on the first unusable row (see edge.rs)
+    {
+        let k = 4u32;
+        let u = edge::usable_rows(k);
+        let counter = |n: usize| (0..n as u64).collect::<Vec<u64>>();
+        let mut broken = counter(u);
+        broken[3] += 5;
+        let ecases: Vec<(String, (edge::EdgeRow, bool))> = vec![
+            ("edge:flag-mid-row:consistent".into(), (edge::EdgeRow { values: counter(u), flag_rows: vec![2] }, true)),
+            ("edge:flag-every-row-but-last:consistent".into(), (edge::EdgeRow { values: counter(u), flag_rows: (0..u - 1).collect() }, true)),
+            ("edge:flag-mid-row:broken-counter".into(), (edge::EdgeRow { values: broken, flag_rows: vec![2] }, false)),
+            ("edge:flag-on-last-usable-row".into(), (edge::EdgeRow { values: counter(u), flag_rows: vec![u - 1] }, false)),
+            ("edge:flag-on-last-two-usable-rows".into(), (edge::EdgeRow { values: counter(u), flag_rows: vec![u - 2, u - 1] }, false)),
+        ];
+        cx.run_cases("edge-row", &ecases, |(c, expect_sat)| {
+            let mut out = CaseOut::one(if *expect_sat { "edge:satisfied" } else { "edge:violated" }, true);
+            match edge::verdicts(c, k, seed, 11) {
+                Err(e) => out.viol(Viol::new("harness:edge-row", e, json!({}))),
+                Ok(vd) => {
+                    let r_sat = vd.r_classes.is_empty();
+                    if vd.v != r_sat {
+                        let key = if vd.v { "verifier-accepts-violated:edge-row" } else { "verifier-rejects-satisfied:edge-row" };
+                        out.viol(Viol::new(key, format!("real verifier {} but the reference evaluator says violated classes = {:?}", if vd.v { "accepts" } else { "rejects" }, vd.r_classes), json!({"flag_rows": c.flag_rows})));
+                    }
+                    if vd.m != vd.v {
+                        let key = if vd.m { "mock-accepts-verifier-rejects:edge-row" } else { "mock-rejects-verifier-accepts:edge-row" };
+                        out.viol(Viol::new(
+                            key,
+                            format!("MockProver::verify is {} but the real verifier {} for a flag read at the previous row set on rows {:?} ({} usable rows)", if vd.m { "Ok" } else { "Err" }, if vd.v { "accepts" } else { "rejects" }, c.flag_rows, u),
+                            json!({"flag_rows": c.flag_rows, "reference_classes": vd.r_classes}),
+                        ));
+                    }
+                    if vd.v != *expect_sat {
+                        out.viol(Viol::new("harness:edge-row-expectation", format!("expected satisfied = {expect_sat}, real verifier accepts = {}", vd.v), json!({})));
+                    }
+                    out.sample = Some(json!({"flag_rows": c.flag_rows, "verifier": vd.v, "mock": vd.m, "reference_violated": vd.r_classes}));
+                }
+            }
+            out
+        });
+    }
 
     // ---- anti-vacuity: every constraint class must have been the *only* violated class of some case
     let sc = singleton_classes.into_inner().unwrap();
